@@ -611,7 +611,7 @@ var allEvents []event.EvtPeerConnectednessChanged
 
 func TestNotificationSchedules(t *testing.T) {
 	name := t.Name()
-	hx.Check(t, 15000, 400000, 0, func(rt *rapid.T) {
+	hx.Check(t, 15000, 3000000, 0, func(rt *rapid.T) {
 		sc := drawScenario(rt)
 		allEvents = nil
 		runScenario(t, rt, name, sc)
